@@ -13,9 +13,27 @@ from vlib import core
 from vlib.core import cz, cbool, clist
 
 MANIFEST = dict(
-    text='...',
-    note='...',
-    technique='Coq proof over translator-regenerated queue programs + schedule-exact differential correspondence on the real classes',
+    text='Theorems (Coq; any number of processes, each a main thread running any script of put/get/task_done/join calls plus '
+         'its feeder thread Queue._feed; any capacity; any schedule at semaphore/pipe-operation grain, timed acquires and polls '
+         'giving up at any step; all Closed under the global context), about the programs compiled from queues.py on every run '
+         '(Gen = Model by reflexivity; _feed is a hand translation guarded by an exact-text check): an inductive invariant holds in '
+         'every reachable state: capacity accounting sem + buffered + in pipe + in transit = maxsize (so at most maxsize items wait '
+         'and no release of the capacity semaphore raises); reader lock, writer lock and each _notempty lock have one holder; per '
+         'producer, the messages its puts appended = sent by its feeder ++ held by the feeder ++ buffered, in order; the pipe is '
+         'FIFO (send log = received ++ in pipe); the send log is a merge of the producers; hence no loss and no duplication '
+         '(multiset identity). On the scheduler choice go a put fails with Full exactly when the semaphore is 0; a non-blocking get '
+         'finds nothing exactly when the pipe is empty; a put appends exactly its argument. Correspondence: the real Queue / '
+         'JoinableQueue / SimpleQueue, including the real feeder Queue._feed, run over the fake _semlock / pipe / threading of '
+         'harness/detsched.py + c16_fakes.py under explicit schedules and must produce the micro-trace, results, final semaphores, '
+         'pipe and buffers the Coq interpreter computes; Gallina monitors (loss/dup/order on the pipe traffic, results vs events, '
+         'capacity at quiet ends, join/task_done) classify differences.',
+    note='Trusted: Coq kernel; translate/kernels/semprog.py; semaphore primitive as in C17; threading.Condition modelled by '
+         'harness/c16_fakes.TCond (lock + notification semaphore + waiter count); pipe = list of whole messages (C13 + locks), send '
+         'never blocks; pickling not modelled (messages are integers). PARTIAL: JoinableQueue.join/task_done exactness and '
+         'SimpleQueue are covered by the correspondence and monitors only (the proved invariant covers their puts/gets); Empty '
+         'timing and Full for timed puts are oracle choices; "returned by exactly one get" is proved as a safety identity '
+         '(eventual delivery is liveness, not modelled).',
+    technique='Coq proof over translator-regenerated queue programs (weight functions + ghost logs + case analysis on pc) + schedule-exact differential correspondence on the real classes',
     ref='5.16',
 )
 
